@@ -91,10 +91,11 @@ package keeper
 //@   let S0 = store(ctx)
 //@   let akey = hostv2.PacketAcknowledgementKey(D, s)
 //@   modifies world(ctx)
-//@   ensures write_once: err == nil ==> !has(S0, akey)
+//@   ensures write_once: err == nil ==> get(S0, akey) == ""
 //@   ensures needs_receipt: err == nil ==> get(S0, hostv2.PacketReceiptKey(D, s)) != ""
 //@   ensures frame: err == nil ==> store(ctx) == set(S0, akey, types.CommitAcknowledgement(ack)) && world(ctx) == withKV(old(world(ctx)), k.storeService, store(ctx))
-//@   ensures exists_error: has(S0, akey) ==> err != nil
+//@   ensures exists_error: get(S0, akey) != "" ==> err != nil
+//@   ensures written_nonempty: err == nil ==> len(get(store(ctx), akey)) == 32
 //@   ensures fail_unchanged: err != nil ==> world(ctx) == old(world(ctx))
 
 //@ contract (*Keeper).WriteAcknowledgement
@@ -105,5 +106,5 @@ package keeper
 //@   modifies world(ctx)
 //@   ensures async_present: err == nil ==> get(S0, asyncKey) != ""
 //@   ensures async_removed: err == nil ==> !has(store(ctx), asyncKey)
-//@   ensures write_once: err == nil ==> !has(S0, hostv2.PacketAcknowledgementKey(pkt.DestinationClient, pkt.Sequence))
+//@   ensures write_once: err == nil ==> get(S0, hostv2.PacketAcknowledgementKey(pkt.DestinationClient, pkt.Sequence)) == ""
 //@   ensures frame: err == nil ==> store(ctx) == del(set(S0, hostv2.PacketAcknowledgementKey(pkt.DestinationClient, pkt.Sequence), types.CommitAcknowledgement(ack)), asyncKey)
